@@ -20,6 +20,8 @@ Implementation: Tree-sitter node type matching, AST position arithmetic
 
 from typing import Any
 
+from .heuristics import count_c_style_code_lines
+
 
 def count_methods(class_node: Any) -> int:
     """Count number of methods in a TypeScript class.
@@ -60,8 +62,7 @@ def count_loc(class_node: Any, source: str) -> int:
     lines = source.split("\n")[start_line : end_line + 1]
 
     # Exclude blank lines and comment lines, as documented and as done for Python and Rust
-    code_lines = [s for line in lines if (s := line.strip()) and not s.startswith("//")]
-    return len(code_lines)
+    return count_c_style_code_lines(lines)
 
 
 def _get_class_body(class_node: Any) -> Any:
